@@ -39,7 +39,7 @@ func init() {
 				f := r.P.Func("dkv/sst", fname)
 				info := f.Pkg.TypesInfo
 				// every RemoveTables call
-				ast.Inspect(f.Decl.Body, func(nd ast.Node) bool {
+				inspect(f.Decl.Body, func(nd ast.Node) bool {
 					call, ok := nd.(*ast.CallExpr)
 					if !ok || r.P.CalleeFunc(info, call) != rmT {
 						return true
@@ -66,12 +66,12 @@ func init() {
 					// the scan loop: for i, t := range removed { iters[i] = t.ScanPrefix(nil, &scanErr) }
 					var iters types.Object
 					scanned := false
-					ast.Inspect(block, func(m ast.Node) bool {
+					inspect(block, func(m ast.Node) bool {
 						rs, ok := m.(*ast.RangeStmt)
 						if !ok || prog.IdentObj(info, rs.X) != removed {
 							return true
 						}
-						ast.Inspect(rs.Body, func(k ast.Node) bool {
+						inspect(rs.Body, func(k ast.Node) bool {
 							if as, ok := k.(*ast.AssignStmt); ok && len(as.Lhs) == 1 && len(as.Rhs) == 1 {
 								if c, ok := ast.Unparen(as.Rhs[0]).(*ast.CallExpr); ok && r.P.CalleeFunc(info, c) == scanFn {
 									if ix, ok := ast.Unparen(as.Lhs[0]).(*ast.IndexExpr); ok {
@@ -100,7 +100,7 @@ func init() {
 					}
 					// WriteRun(MergeEntries(iters)) -> new tables -> AddTables(level, new...)
 					var newTables types.Object
-					ast.Inspect(block, func(m ast.Node) bool {
+					inspect(block, func(m ast.Node) bool {
 						as, ok := m.(*ast.AssignStmt)
 						if !ok || len(as.Rhs) != 1 {
 							return true
@@ -120,7 +120,7 @@ func init() {
 						return true
 					}
 					var addLevel ast.Expr
-					ast.Inspect(block, func(m ast.Node) bool {
+					inspect(block, func(m ast.Node) bool {
 						c, ok := m.(*ast.CallExpr)
 						if ok && r.P.CalleeFunc(info, c) == addT && len(c.Args) == 2 && prog.IdentObj(info, c.Args[1]) == newTables {
 							addLevel = c.Args[0]
@@ -137,7 +137,7 @@ func init() {
 					lvlText := types.ExprString(addLevel)
 					includesTarget := false
 					check := func(n ast.Node) {
-						ast.Inspect(n, func(k ast.Node) bool {
+						inspect(n, func(k ast.Node) bool {
 							c, ok := k.(*ast.CallExpr)
 							if !ok || r.P.CalleeFunc(info, c) != allTables {
 								return true
@@ -151,7 +151,7 @@ func init() {
 						})
 					}
 					// all statements that define or append to `removed`
-					ast.Inspect(f.Decl.Body, func(m ast.Node) bool {
+					inspect(f.Decl.Body, func(m ast.Node) bool {
 						switch x := m.(type) {
 						case *ast.AssignStmt:
 							for _, l := range x.Lhs {
@@ -161,7 +161,7 @@ func init() {
 							}
 						case *ast.RangeStmt:
 							uses := false
-							ast.Inspect(x.Body, func(k ast.Node) bool {
+							inspect(x.Body, func(k ast.Node) bool {
 								if as, ok := k.(*ast.AssignStmt); ok {
 									for _, l := range as.Lhs {
 										if prog.IdentObj(info, l) == removed {
@@ -196,12 +196,12 @@ func init() {
 			compact := r.P.FuncObj("dkv/sst", "(*Compactor).Compact")
 			current := r.P.FuncObj("dkv", "(*DB).currentSSTables")
 			n := 0
-			ast.Inspect(f.Decl.Body, func(nd ast.Node) bool {
+			inspect(f.Decl.Body, func(nd ast.Node) bool {
 				loop, ok := nd.(*ast.ForStmt)
 				if !ok {
 					return true
 				}
-				ast.Inspect(loop.Body, func(m ast.Node) bool {
+				inspect(loop.Body, func(m ast.Node) bool {
 					call, ok := m.(*ast.CallExpr)
 					if !ok || r.P.CalleeFunc(info, call) != compact || len(call.Args) != 1 {
 						return true
@@ -234,7 +234,7 @@ func init() {
 				info := f.Pkg.TypesInfo
 				// scanErr variables
 				scanErrs := map[types.Object]bool{}
-				ast.Inspect(f.Decl.Body, func(nd ast.Node) bool {
+				inspect(f.Decl.Body, func(nd ast.Node) bool {
 					if vs, ok := nd.(*ast.ValueSpec); ok && len(vs.Values) == 0 {
 						for _, n := range vs.Names {
 							if o := info.Defs[n]; o != nil && isErrorType(o.Type()) {
@@ -279,7 +279,7 @@ func init() {
 				r.Site(f.Decl.Pos(), f.Name()+": scan error tested before the change set is returned")
 				// the scans write into the declared scanErr (address passed)
 				okAddr := false
-				ast.Inspect(f.Decl.Body, func(nd ast.Node) bool {
+				inspect(f.Decl.Body, func(nd ast.Node) bool {
 					if u, ok := nd.(*ast.UnaryExpr); ok && u.Op == token.AND && scanErrs[prog.IdentObj(info, u.X)] {
 						okAddr = true
 					}
@@ -299,7 +299,7 @@ func init() {
 			ascend := r.P.FuncObj("dkv/sst", "(*LevelList).AscendLevels")
 			oldToNew := r.P.FuncObj("dkv/sst", "OrderOldToNew")
 			var outer *ast.RangeStmt
-			ast.Inspect(f.Decl.Body, func(nd ast.Node) bool {
+			inspect(f.Decl.Body, func(nd ast.Node) bool {
 				if rs, ok := nd.(*ast.RangeStmt); ok && outer == nil {
 					if call, ok := ast.Unparen(rs.X).(*ast.CallExpr); ok && r.P.CalleeFunc(info, call) == ascend {
 						outer = rs
@@ -318,7 +318,7 @@ func init() {
 			}
 			r.Site(outer.Pos(), "majorCompaction selection loops")
 			var inner *ast.RangeStmt
-			ast.Inspect(outer.Body, func(nd ast.Node) bool {
+			inspect(outer.Body, func(nd ast.Node) bool {
 				if rs, ok := nd.(*ast.RangeStmt); ok && inner == nil {
 					inner = rs
 				}
@@ -339,7 +339,7 @@ func init() {
 			}
 			// selected slice
 			var sel types.Object
-			ast.Inspect(inner.Body, func(nd ast.Node) bool {
+			inspect(inner.Body, func(nd ast.Node) bool {
 				if as, ok := nd.(*ast.AssignStmt); ok && len(as.Lhs) == 1 && len(as.Rhs) == 1 {
 					if call, ok := ast.Unparen(as.Rhs[0]).(*ast.CallExpr); ok {
 						if id, ok := call.Fun.(*ast.Ident); ok && id.Name == "append" {
@@ -372,13 +372,13 @@ func init() {
 			// base tables always included
 			at := r.P.FuncObj("dkv/sst", "(*LevelList).At")
 			okBase := false
-			ast.Inspect(f.Decl.Body, func(nd ast.Node) bool {
+			inspect(f.Decl.Body, func(nd ast.Node) bool {
 				rs, ok := nd.(*ast.RangeStmt)
 				if !ok || rs.Pos() < outer.End() {
 					return true
 				}
 				found := false
-				ast.Inspect(rs.X, func(m ast.Node) bool {
+				inspect(rs.X, func(m ast.Node) bool {
 					if call, ok := m.(*ast.CallExpr); ok && r.P.CalleeFunc(info, call) == at && len(call.Args) == 1 {
 						if tv, ok := info.Types[call.Args[0]]; ok && tv.Value != nil && tv.Value.String() == "-1" {
 							found = true
@@ -387,7 +387,7 @@ func init() {
 					return true
 				})
 				if found {
-					ast.Inspect(rs.Body, func(m ast.Node) bool {
+					inspect(rs.Body, func(m ast.Node) bool {
 						if as, ok := m.(*ast.AssignStmt); ok && len(as.Lhs) == 1 && prog.IdentObj(info, as.Lhs[0]) == sel {
 							okBase = true
 						}
